@@ -131,9 +131,17 @@ Matches(e, j) == LET x == Expected(j) IN
                  /\ RNorm(Lit(e.b)) = x.S
                  /\ Units([S |-> x.S, offs |-> e.l, enc |-> x.enc]) = Units(x)
 \* access units before the first parameter sets cannot be decoded: the framer
-\* may skip them; from then on every access unit is output, in order
+\* may skip them; from then on every access unit is output, in order.
+\* A range flagged [4] = 1 is not an access unit: it holds parameter sets (or other non-picture NAL units)
+\* travelling alone in a buffer of a flow flagged complete - the framer learns them and outputs nothing.
+NoAu(j) == Len(h.aus[j]) >= 4 /\ h.aus[j][4] = 1
+NextAu(n) == IF \E j \in n..Len(h.aus) : ~NoAu(j)
+             THEN CHOOSE j \in n..Len(h.aus) : ~NoAu(j) /\ \A i \in n..(j - 1) : NoAu(i)
+             ELSE Len(h.aus) + 1
 Candidates == IF FirstParam = 0 THEN {}
-              ELSE IF h.next < FirstParam THEN h.next..FirstParam ELSE {h.next} \cap (1..Len(h.aus))
+              ELSE IF h.next < FirstParam
+                   THEN {j \in h.next..FirstParam : ~NoAu(j)} \cup ({NextAu(FirstParam)} \cap (1..Len(h.aus)))
+                   ELSE {NextAu(h.next)} \cap (1..Len(h.aus))
 HGuard(e) ==
   CASE e.e = "Feed" -> /\ kind \in {"h264", "h264raw"} /\ e.n >= 0
                        /\ kind = "h264" => h.fed + e.n <= Len(h.stream)
@@ -148,7 +156,7 @@ HGuard(e) ==
     [] e.e = "End"  -> /\ kind \in {"h264", "h264raw"}
                        \* every access unit that follows the parameter sets was output
                        /\ kind = "h264" => /\ h.fed = Len(h.stream)
-                                           /\ IF FirstParam = 0 THEN h.next = 1 ELSE h.next = Len(h.aus) + 1
+                                           /\ IF FirstParam = 0 THEN h.next = 1 ELSE NextAu(h.next) = Len(h.aus) + 1
     [] OTHER        -> FALSE
 HEffect(e) ==
   CASE e.e = "Feed" -> h' = [h EXCEPT !.fed = @ + e.n]
